@@ -35,6 +35,11 @@ fn main() {
     let seed: u64 = std::env::var("VERIF_SEED").ok().and_then(|s| s.trim().parse::<i128>().ok()).map(|v| v as u64).unwrap_or(1);
     let (prop, level, run, rep): (&'static str, &'static str, fn(&Ctx), fn(&Ctx, &serde_json::Value)) = match id.as_str() {
         "C01" => ("C01", "exploration", props::c01::run, props::c01::replay),
+        "C12" => ("C12", "exploration", props::c12::run_check, props::c12::replay),
+        "C06" => ("C06", "exploration", props::c06::run_check, props::c06::replay),
+        "C08" => ("C08", "exploration", props::c08::run_check, props::c08::replay),
+        "C10" => ("C10", "exploration", props::c10::run_check, props::c10::replay),
+        "C07" => ("C07", "exploration", props::c07::run_check, props::c07::replay),
         _ => {
             eprintln!("unknown property {}", id);
             std::process::exit(2);
